@@ -449,6 +449,11 @@ func (r *pRun) step(i int, st pStep) bool {
 		time.Sleep(time.Duration(st.Us) * time.Microsecond)
 	case "api":
 		r.startAPI(st.Kind, st.N, i)
+	case "release-terminal":
+		// the application hands the terminal over itself (Program.ReleaseTerminal)
+		return pTimed(deadline, func() { _ = r.p.ReleaseTerminal() })
+	case "restore-terminal":
+		return pTimed(deadline, func() { _ = r.p.RestoreTerminal() })
 	case "pty-hangup":
 		if r.ptyM == nil {
 			h.addErr("step %d: pty-hangup without a pty", i)
